@@ -53,3 +53,49 @@ for h, tier in [("k_sub_mod_fixed2", "quick"), ("k_sub_mod_fixed3_w", "quick"), 
         functions=["decode::read_subframe", "decode::read_fixed_subframe", "decode::read_lpc_subframe", "decode::predict"],
         contract=SUB_CONTRACT + "; callee read_residuals replaced by its contract (called once with the right order and slice; delivers the coded residuals or an error, which must propagate)",
         stubs=["decode::read_residuals (contract discharged by K-res_valid_* / K-res_total_*)"], timeout=900)
+
+for h in ["k_sub_total_const_verbatim", "k_sub_total_reserved", "k_sub_total_fixed", "k_sub_total_lpc", "k_sub_total_lpc_wide", "k_sub_total_fixed_wide"]:
+    add("K-" + h[2:], ["C04", "C05"], D + h, tier="quick" if "wide" not in h else "thorough", bound="block of 3 samples; every header/field value, every read fault",
+        functions=["decode::read_subframe", "decode::read_fixed_subframe", "decode::read_lpc_subframe", "stream::SubframeHeader::from_reader", "stream::SubframeHeaderType::from_reader"],
+        contract="decode::read_subframe: for every field sequence and read fault: no panic; read fault => Err; pad bit 1, reserved type code, predictor order > block => Err",
+        stubs=["decode::read_residuals (any result; contract discharged by K-res_total_*)"], timeout=600)
+add("K-sub_wasted_excess", ["C05", "C03"], D + "k_sub_wasted_excess", tier="thorough", domain="full",
+    functions=["decode::read_subframe", "stream::SubframeHeader::from_reader"],
+    contract="decode::read_subframe: wasted-bits count k (any u32) with bits-per-sample b (1..32): Err(ExcessiveWastedBits) iff k >= b", timeout=900)
+FR_CONTRACT = ("decode::read_subframes: requires frame body == RFC coding (verbatim subframes) of the channel pair the assignment prescribes "
+               "(left/side, side/right, mid/side; side one bit wider, 33-bit path for 32-bit streams); ensures Ok, buffer == (left, right), "
+               "shape == header, zero padding and 16 CRC bits consumed")
+for h in ["k_frames_valid_indep_16", "k_frames_valid_ls_16", "k_frames_valid_sr_16", "k_frames_valid_ms_16", "k_frames_valid_ls_31",
+          "k_frames_valid_ms_31", "k_frames_valid_ls_32", "k_frames_valid_sr_32", "k_frames_valid_ms_32"]:
+    add("K-" + h[2:], ["C03", "C01"], D + h, tier="quick", bound="block of 2 PCM frames, bits-per-sample 16 / 31 / 32 per instance; all sample values",
+        functions=["decode::read_subframes", "decode::read_subframe", "audio::Frame::resized_stereo", "audio::Frame::resized_channels", "stream::BitsPerSample::checked_add"],
+        contract=FR_CONTRACT, timeout=300)
+for h in ["k_frames_total_ls_31", "k_frames_total_sr_31", "k_frames_total_ms_31", "k_frames_total_ms_32", "k_frames_total_ls_32"]:
+    add("K-" + h[2:], ["C04"], D + h, tier="quick", bound="block of 2 PCM frames; every in-width subframe content",
+        functions=["decode::read_subframes"], contract="decode::read_subframes: channel reconstruction never panics (no overflow) for arbitrary decoded subframe values", timeout=300)
+add("K-read_frame_contract", ["C04", "C05", "C07", "C14"], D + "k_read_frame_contract", tier="quick", domain="full",
+    functions=["decode::Decoder::read_frame", "crc::CrcReader::read"],
+    contract="decode::Decoder::read_frame: requires current <= total; ensures end of known-length stream => Ok(None) untouched (idempotent); "
+             "Ok(Some) => header Ok, block <= remaining, (block == remaining || block > 14), subframes Ok, CRC-16 over all 3 consumed bytes == 0, "
+             "position += block; otherwise Err (Ok(None) on header EOF with unknown length) and position unchanged; valid frame never rejected",
+    stubs=["stream::FrameHeader::read (contract: K-hdr_* obligations)", "decode::read_subframes (contract: K-frames_*)"], timeout=300)
+add("K-decoder_seek_table2", ["C06", "C04"], D + "k_decoder_seek_table2", tier="quick", bound="seek table of 2 arbitrary points; all targets and offsets",
+    functions=["decode::Decoder::seek", "metadata::SeekPoint::sample_offset", "metadata::BlockList::get"],
+    contract="decode::Decoder::seek: Ok(r) => r == offset of last defined point <= target (0 if none), stream at frames_start + its byte offset, "
+             "current_sample == r <= target; stream seek error propagated; no overflow", timeout=300)
+for h in ["k_byte_seek_arith_1x8", "k_byte_seek_arith_2x16", "k_byte_seek_arith_2x24", "k_byte_seek_arith_8x32", "k_byte_seek_arith_3x12"]:
+    add("K-" + h[2:], ["C06"], D + h, tier="quick", bound="(channels, bits) fixed per instance; all totals < 2^36, positions, offsets",
+        functions=["decode::FlacByteReader::seek"],
+        contract="<FlacByteReader as Seek>::seek: decoder asked for floor(target_byte / bytes_per_pcm_frame), target = Start(n) | current + d | total_bytes - d, "
+                 "total_bytes = total x channels x ceil(bps/8); End(+d) / below 0 => Err without moving; Current(0) reports the byte position",
+        stubs=["decode::Decoder::seek (records its argument, fails)"], timeout=300)
+for h in ["k_chan_seek_1ch_b0", "k_chan_seek_2ch_b1", "k_chan_seek_1ch_b2"]:
+    add("K-" + h[2:], ["C06"], D + h, tier="quick" if h.endswith("b0") else "thorough", bound="abstract stream of 3 blocks x 2 samples; arbitrary well-formed reader state, landing point and target",
+        functions=["decode::FlacChannelReader::seek", "decode::FlacChannelReader::fill_buf", "decode::FlacChannelReader::consume"],
+        contract="FlacChannelReader::seek(t): t <= total => Ok and the next fill_buf starts at the sample at position t in every channel "
+                 "(rest of t's block); t > total => Err", stubs=["decode::Decoder::read_frame (abstract stream)", "decode::Decoder::seek (lands on any block boundary <= target)"], timeout=600)
+for h in ["k_chan_deliver_1ch_fresh", "k_chan_deliver_2ch_b0", "k_chan_deliver_1ch_b1", "k_chan_deliver_1ch_b2"]:
+    add("K-" + h[2:], ["C07"], D + h, tier="quick", bound="abstract stream of 3 blocks x 2 samples; arbitrary well-formed reader state (so all histories)",
+        functions=["decode::FlacChannelReader::fill_buf", "decode::FlacChannelReader::consume"],
+        contract="FlacChannelReader: at position p fill_buf() == stream[p..end of block] per channel, consume(k) moves to p+k, end of stream is reported on every later call (nothing twice)",
+        stubs=["decode::Decoder::read_frame (abstract stream)"], timeout=300)
